@@ -31,7 +31,7 @@ const (
 	c01FamilyBudget = 2_000_000_000 // absolute cap for one call on a 10^4-token input
 )
 
-var frames = []string{"%s", "a : %s", "%s a", "( %s )"}
+var frames = []string{"%s", "a : %s", "%s a", "( %s )", "a : ( %s a )", "( %s a ) AND b"}
 
 func init() {
 	core.Register(&core.Check{
@@ -101,9 +101,9 @@ func init() {
 		Eval:   c01Eval,
 		Shrink: shrinkFlat,
 		Rule: "TOK(Σ_full,N) ∪ BYTES(B_lex,L) ∪ BYTES(B_utf8,L+1) ∪ EDIT(1) of depth-1 trees (thorough: + five focused alphabets to length 8, EDIT on depth-2 trees, EDIT(2) on leaves), each x {no default field, default field} x six operations, in the statement-counting build; " +
-			"adversarial families frame(block^n) for all 812 blocks of 1-2 tokens x 4 frames, n doubling to 1024/8192 tokens, with exact statement and allocation counts; non-trivial = Parse accepted; distinct = distinct accepted trees",
+			"adversarial families frame(block^n) for all 812 blocks of 1-2 tokens x 6 frames, n doubling to 1024/8192 tokens, with exact statement and allocation counts; non-trivial = Parse accepted; distinct = distinct accepted trees",
 		Assumptions: []string{
-			"'polynomial' is decided as at most cubic growth of exact statement / allocation counts on 3 248 families up to the length bound, plus an absolute cap; not an asymptotic proof",
+			"'polynomial' is decided as at most cubic growth of exact statement / allocation counts on 4 872 families up to the length bound, plus an absolute cap; not an asymptotic proof",
 			"bytes outside the class representatives and inputs beyond the bounds are not covered",
 		},
 		Bounds: func(tier string) map[string]any {
